@@ -166,6 +166,15 @@ func simGen(r *rand.Rand, tier string, n int) []*wire.Case {
 		mk("d-freeze", s)
 	}
 	{
+		s := base() // break extension: an enemy carrying the flag loses its action (no phase-1 queue either), a character does not
+		s.progs[0] = "Ap.1.1.100+Mp.4+Ms.4"
+		s.progs[1] = "Ap.2.1.100+Ro.4"
+		s.cenergy = []float64{100, 0}
+		s.ults = "_|1u100|_|_"
+		s.cycles = 4
+		mk("d-break-extend", s)
+	}
+	{
 		s := base() // action advance: the same unit acts again; gauge changes
 		s.progs[0] = "Ap.1.1.100+Gs.0"
 		s.progs[1] = "Ap.2.1.100+Gf.5000"
@@ -312,16 +321,16 @@ func simGen(r *rand.Rand, tier string, n int) []*wire.Case {
 			case k == 14:
 				return fmt.Sprintf("N%s.%d", sel(), pick(r, 30, 60, 120, -50))
 			case k == 15 || k == 16:
-				return fmt.Sprintf("M%s.%d", sel(), r.Intn(4))
+				return fmt.Sprintf("M%s.%d", sel(), r.Intn(5))
 			case k == 17:
-				return fmt.Sprintf("R%s.%d", sel(), r.Intn(4))
+				return fmt.Sprintf("R%s.%d", sel(), r.Intn(5))
 			case k == 18:
 				return fmt.Sprintf("S.%d", pick(r, 1, 2, -1, -3))
 			}
 			if canAttack {
 				return fmt.Sprintf("Ap.%d.1.%d", pick(r, 1, 2), dmg())
 			}
-			return fmt.Sprintf("M%s.%d", sel(), r.Intn(4))
+			return fmt.Sprintf("M%s.%d", sel(), r.Intn(5))
 		}
 		for p := 0; p < nprogs; p++ {
 			var cs []string
